@@ -62,6 +62,10 @@ def image_mask_from_geom(size, bbox, polygons):
         for ring in p.interiors:
             draw.polygon([transf(coord) for coord in ring.coords], fill=255)
 
+    # draw outer polygons first: a polygon inside the hole of another one (island)
+    # must not be overdrawn by that hole
+    polygons = sorted(polygons, key=lambda p: p.envelope.area, reverse=True)
+
     for p in polygons:
         # little bit smaller polygon does not include touched pixels outside coverage
         buffered = p.buffer(buffer, resolution=1, join_style=2)
